@@ -97,6 +97,10 @@ def main():
     for i, (c, r) in enumerate(zip(cats, rust)):
         if c.startswith("A.valid-"):
             valid.setdefault(c, []).append(r)
+    singles = {}
+    for c, r in zip(cats, rust):
+        if c.startswith("D.single-of-many:") and r.split(" ")[1].startswith("U:ok:"):
+            singles[int(c.split(":")[1])] = r.split(" ")[1][5:]
     for i, (inp, cat, r) in enumerate(zip(corpus, cats, rust)):
         rp, ru, rm = r.split(" ")
         msg, known = None, None
@@ -112,6 +116,14 @@ def main():
             msg, known = "parse_openssl_25519_pubkeys_pem_many returns Ok(empty) on an input that holds no key instead of an error", "K18-many-ok-without-key"
         elif cat.startswith("D.many") and rm.startswith("M:ok") and any(t in cat for t in ("garbage", "truncated", "no-end", "der-appended")):
             msg, known = "parse_openssl_25519_pubkeys_pem_many ignores an unframed tail after the last complete block", "K18-many-ok-without-key"
+        elif cat.startswith("F.key-has-begin-marker") and (("priv" in cat and not rp.startswith("P:ok")) or ("pub" in cat and not ru.startswith("U:ok"))):
+            msg = "a key whose bytes contain a PEM begin marker (no complete frame) does not parse in its %s form (PEM and DER forms must parse identically)" % ("DER" if "-der-" in cat else "PEM")
+        elif ":sel=" in cat:
+            # a bundle of valid blocks parses to the keys its blocks parse to, in order (repeats included)
+            idx = [int(x) for x in cat.split(":sel=")[1].split(",")]
+            want = "M:ok:%d:%s" % (len(idx), ",".join(singles[k] for k in idx)) if all(k in singles for k in idx) else None
+            if want is not None and rm != want:
+                msg = "a bundle of %d PEM public keys does not parse to the keys of its blocks in order (repeats included): got %s" % (len(idx), rm[:80])
         agrees = None
         detail = ""
         if model_ok:
